@@ -37,6 +37,16 @@ theorem grid_has_the_tolerance {u : Rat} (hu : 0 < u) (a b : Int) (s : Nat) (hs 
       (((b : Rat) * u - (a : Rat) * u) / ((s : Rat) * u)).floor :=
   grid_tolerance hu a b s hs hs9
 
+/-- **Ranges on a decimal (or any) grid.**  For `min = a·u`, `max = b·u ≥ min`,
+    `step = s·u` with `0 < s < 10^9` the values are exactly `min + i·step` for
+    `i = 0 … ⌊(b-a)/s⌋` — no side condition left. -/
+theorem range_on_grid {u : Rat} (hu : 0 < u) (a b : Int) (hab : a ≤ b) (s : Nat)
+    (hs : 0 < s) (hs9 : s < 1000000000) :
+    rangeValues ((a : Rat) * u) ((b : Rat) * u) ((s : Rat) * u) =
+      (List.range (((b - a) / (s : Int)).toNat + 1)).map
+        fun (i : Nat) => (a : Rat) * u + (i : Rat) * ((s : Rat) * u) :=
+  rangeValues_on_grid hu a b hab s hs hs9
+
 /-- number of values -/
 theorem range_count {mn mx st : Rat} (hst : 0 < st) (hle : mn ≤ mx)
     (htol : ((mx - mn) / st + eps).floor = ((mx - mn) / st).floor) :
@@ -64,6 +74,18 @@ theorem range_consecutive_differ_by_step {mn mx st : Rat} (hst : 0 < st) (hle : 
       w - v = st := by
   refine ⟨_, _, range_nth hst hle htol i (by omega), range_nth hst hle htol (i + 1) hi, ?_⟩
   push_cast; ring
+
+/-- the values of a range are pairwise distinct (so "each requested rate exactly once" is
+    meaningful for ranges) -/
+theorem range_values_distinct {mn mx st : Rat} (hst : 0 < st) (hle : mn ≤ mx)
+    (htol : ((mx - mn) / st + eps).floor = ((mx - mn) / st).floor) :
+    (rangeValues mn mx st).Nodup := by
+  rw [rangeValues_eq hst hle htol]
+  apply List.Nodup.map_on _ List.nodup_range
+  intro i _ j _ h
+  have h1 : (i : Rat) * st = (j : Rat) * st := by linarith
+  have h2 : (i : Rat) = (j : Rat) := mul_right_cancel₀ (ne_of_gt hst) h1
+  exact_mod_cast h2
 
 /-- when `max` lies on the grid of the range (`max = min + k·step`), the last value is `max` -/
 theorem range_last_is_max {mn st : Rat} (hst : 0 < st) (k : Nat)
